@@ -49,6 +49,9 @@ type ampRouter struct {
 	nToServer, nToClient int
 	dropToServer         func(idx int, types []protocol.PacketType) bool
 	dropToClient         func(idx int) bool
+	// rewriteToServer may replace a client datagram by one crafted at the router (same source address);
+	// a crafted datagram is delivered and counted with its true size and never validates the address
+	rewriteToServer func(idx int, types []protocol.PacketType, data []byte, odcid []byte) (crafted []byte, what string)
 	odcid                []byte
 	trace                []string
 	viol                 []ampViolation
@@ -76,7 +79,16 @@ func (r *ampRouter) SendPacket(p simnet.Packet) error {
 			r.odcid = dcid
 		}
 		desc := ampTypes(types, short)
-		if r.dropToServer != nil && r.dropToServer(idx, types) {
+		crafted := false
+		if r.rewriteToServer != nil && r.odcid != nil {
+			if nd, what := r.rewriteToServer(idx, types, p.Data, r.odcid); nd != nil {
+				desc = fmt.Sprintf("%s REPLACED-BY %s", desc, what)
+				p.Data = nd
+				crafted = true
+				types, short, tokLen = nil, false, -1
+			}
+		}
+		if !crafted && r.dropToServer != nil && r.dropToServer(idx, types) {
 			r.trace = append(r.trace, fmt.Sprintf("%v C>S#%d %dB %s DROPPED", now, idx, len(p.Data), desc))
 			r.mu.Unlock()
 			return nil
@@ -185,10 +197,11 @@ const (
 	ampServerAppCloses
 	ampListenerCloses
 	ampRetry
+	ampCoalescedJunk
 	ampNKinds
 )
 
-var ampKindNames = []string{"plain", "client-blackholed-after-k", "lossy", "server-app-closes-early", "listener-closes-early", "retry"}
+var ampKindNames = []string{"plain", "client-blackholed-after-k", "lossy", "server-app-closes-early", "listener-closes-early", "retry", "coalesced-junk"}
 
 func runAmpConn(w *bufio.Writer, seed uint64, n int, _ []string) {
 	r := u.NewRng(seed)
@@ -216,6 +229,9 @@ func ampConnScenario(w *bufio.Writer, r *u.Rng, idx, kind int, dist map[string]i
 	latency := time.Duration(r.Pick(1, 5, 5, 20)) * time.Millisecond
 	lossRng := r.Fork()
 	clientPktSize := int(r.Pick(1200, 1200, 1252, 1280, 1350))
+	if kind == ampCoalescedJunk && extra < 9000 {
+		extra += 9000 // plenty to send
+	}
 	human := fmt.Sprintf("kind=%s cert-extra=%d latency=%v client-initial-packet-size=%d blackhole-after=%d loss=%d%% close-delay=%v", ampKindNames[kind], extra, latency, clientPktSize, blackholeAfter, lossPct, closeDelay)
 	dist["scenarios"]++
 	dist["kind:"+ampKindNames[kind]]++
@@ -242,6 +258,45 @@ func ampConnScenario(w *bufio.Writer, r *u.Rng, idx, kind int, dist map[string]i
 				}
 			}
 			return false
+		}
+	}
+	if kind == ampCoalescedJunk {
+		// The client's datagrams that would validate the address (they carry a Handshake packet) are replaced at the
+		// router by datagrams of the SAME size that coalesce long-header packets for the connection's DCID and version
+		// whose payload cannot decrypt (Initial+Initial..., Initial+0-RTT-looking, Initial+Handshake-looking,
+		// Initial+garbage); Initial-only datagrams of the client get such packets appended. The server has a long
+		// certificate chain, i.e. plenty to send. Delivered bytes are counted with their true size.
+		nReplaced := 0
+		junkRng := r.Fork()
+		router.rewriteToServer = func(i int, types []protocol.PacketType, data []byte, odcid []byte) ([]byte, string) {
+			hasHandshake, onlyInitial := false, len(types) > 0
+			for _, t := range types {
+				if t == protocol.PacketTypeHandshake {
+					hasHandshake = true
+				}
+				if t != protocol.PacketTypeInitial {
+					onlyInitial = false
+				}
+			}
+			switch {
+			case hasHandshake && nReplaced < 8:
+				nReplaced++
+				n := len(data)
+				if n < 200 {
+					n = 1200
+				}
+				parts := ampDatagramParts(junkRng, n)
+				return quic.VerifC14CoalescedDatagram(odcid, parts, junkRng.Bytes), fmt.Sprintf("%dB %s", n, ampPartsString(parts))
+			case onlyInitial && i > 0 && len(data) <= 1250 && junkRng.Bool():
+				k := junkRng.Range(1, 3)
+				parts := make([]quic.VerifC14Part, k)
+				for j := range parts {
+					parts[j] = quic.VerifC14Part{Type: int(junkRng.Pick(0, 0, 1, -1)), Size: 50}
+				}
+				tail := quic.VerifC14CoalescedDatagram(odcid, parts, junkRng.Bytes)
+				return append(append([]byte{}, data...), tail...), fmt.Sprintf("%dB original+%s", len(data)+len(tail), ampPartsString(parts))
+			}
+			return nil, ""
 		}
 	}
 	cert := ampCert(r, extra)
